@@ -300,6 +300,9 @@ def reduction_rules(chk, facts, adt, op, rule, combine_trait, lens=(0, 1, 2, 3))
     chk.add(rule, "%s fields are private" % short, PROVED if C.private else REFUTED, "")
     container_value_rule(chk, facts, C, op, rule, lens)
     container_many_rule(chk, facts, C, op, rule)
+    from ..window import window_value
+    for L in (1, 2, 3):
+        window_value(chk, rule, facts, C, L, op)
     # combining operator: concatenation (simplification handled by the caller for Sop)
     forms = [(bd, "<%s as %s>::%s" % (sty["s"], tr["s"], bd["name"])) for bd, sty, tr in facts.trait_impl_methods(combine_trait) if (sty["t"] if sty["k"] == "ref" else sty).get("path") == adt]
     chk.floor(rule + " operator forms", len(forms), 4)
